@@ -14,7 +14,7 @@ pub static DEF: PropDef = PropDef {
     rule: "cases: a raw DEFLATE stream S (real compressors and the independent generator; plaintext 1025 B..40 KiB, \
 band 1025..1100 over-sampled) that decompress_deflate_stream(S, true) accepts on its own (otherwise discarded, counted), \
 wrapped as zlib (4 headers) / gzip (16 optional-field subsets, random field contents, odd XLEN) / ZIP local file with \
-method 8 (name/extra 0..300, names in ASCII, legacy code pages, multi-byte UTF-8 or arbitrary bytes, data descriptor, central directory) / PNG IDAT run (1..40 chunks, IDAT total > 1024 bytes), \
+method 8 (name/extra 0..300, names in ASCII, legacy code pages, multi-byte UTF-8 or arbitrary bytes, data descriptor, central directory, Zip64 records of 8/16/24/28 bytes with masked 32-bit sizes) / PNG IDAT run (1..40 chunks, IDAT total > 1024 bytes), \
 between junk that cannot start a signature; the diagnostics level passed to expand_zlib_chunks is 0 for 13 files in 16, else 1, 2 or 9 (a function of the file). Oracle: my own container model finds a DEFLATE/PNG chunk in \
 expand_zlib_chunks(F) whose plaintext equals S's plaintext; on a miss the case is discarded (counted) if another expanded \
 chunk overlaps S, else it is a violation; round trip is asserted as well. Non-trivial = every kept case; distinct = hash of F.",
@@ -216,10 +216,11 @@ fn build(dna: &mut Dna, ctx: &mut Ctx) -> Option<Built> {
         2 => (
             "zip",
             format!(
-                "name{}-extra{}-dd{}",
+                "name{}-extra{}-dd{}{}",
                 if zo.name_len == 0 { "0" } else { "+" },
                 if zo.extra_len == 0 { "0" } else { "+" },
-                zo.data_descriptor as u8
+                zo.data_descriptor as u8,
+                if zo.zip64 != 0 && !zo.data_descriptor { format!("-zip64rec{}", [16, 8, 24, 28][(zo.zip64 as usize - 1) % 4]) } else { String::new() }
             ),
             wrap_zip(&mut out, &zo, &stream, &plain, &mut m),
         ),
